@@ -72,6 +72,12 @@ def histories(tier: str) -> List[Tuple[str, ...]]:
         ("{1: 0}", "{1: 0, 2: 'a', 3: 1.5, 4: b'x', 5: None, 6: (0,)}"), ("defaultdict(int, {1: 0})", "defaultdict(int, {1: 0, 2: 'a', 3: 1.5, 4: b'x', 5: None, 6: (0,)})"),
         ("[0]", "0", "{'a': 0}", "'a'", "(0, 'a')"),
         ("[0] * 1200 + ['a']",), ("[0] * 1200 + [None, 'a']", "[0]"), ("set(range(1500)) | {'a', None}",),
+        # ONE container object handed to call after call and grown in between (what is passed is the same object every time)
+        ("@shared_list", "0", "'a'", "None", "[0]"), ("@shared_list", "Base()", "Derived()", "{'a': 0}"),
+        ("@shared_set", "0", "'a'", "None", "(0,)"), ("@shared_intdict", "0", "'a'", "[0]", "None"),
+        ("@shared_strdict", "0", "'a'", "{'a': 0}", "None"), ("@shared_strdict", "Base()", "[Derived()]"),
+        # a generator that stays suspended while more than a thousand other calls complete, and yields again afterwards
+        ("@suspended_over_calls", "0", "'a'", "None"), ("@suspended_over_calls", "[0]", "['a']", "Base()"),
     ]
     if tier == "thorough":
         hs += [(e,) for e in V.depth2(quick=True)]
@@ -86,7 +92,13 @@ def gen_module(modname: str, hs: List[Tuple[str, ...]], base: int) -> Tuple[str,
     for i, h in enumerate(hs):
         n = base + i
         kind = FKINDS[n % len(FKINDS)]
+        if h and h[0].startswith("@"):
+            kind, h = h[0][1:], h[1:]
         fn, pn = f"h{n}", f"p{n}"
+        if kind.startswith("shared_"):
+            L += [f"def {fn}({pn}):", f"    return len({pn})", ""]
+        elif kind == "suspended_over_calls":
+            L += [f"def {fn}({pn}):", "    last = None", "    for last in _NEXT[0]:", "        yield last", "    return last", "", f"def {fn}_tick(i):", "    return i", ""]
         if kind == "function":
             L += [f"def {fn}({pn}):", f"    return {pn}", ""]
         elif kind == "annotated":
@@ -123,6 +135,36 @@ def drive(M, metas: List[Dict[str, Any]], observed: Dict[str, Dict[str, List[Any
             M._NEXT[0] = vals
             obs["param"].append(0)
             g = getattr(M, m["fn"])(0)
+            try:
+                while True:
+                    obs["yield"].append(next(g))
+            except StopIteration as st:
+                obs["return"].append(st.value)
+            continue
+        if m["kind"].startswith("shared_"):
+            acc: Any = {"shared_list": list, "shared_set": set, "shared_intdict": dict, "shared_strdict": dict}[m["kind"]]()
+            for i, e in enumerate(m["history"]):
+                v = V.ev(e)
+                if m["kind"] == "shared_list":
+                    acc.append(v)
+                elif m["kind"] == "shared_set":
+                    acc.add(v)
+                elif m["kind"] == "shared_intdict":
+                    acc[i] = v
+                else:
+                    acc["k%d" % i] = v
+                obs["param"].append(type(acc)(acc))   # what the container held when THIS call started
+                obs["return"].append(getattr(M, m["fn"])(acc))
+            continue
+        if m["kind"] == "suspended_over_calls":
+            vals = [V.ev(e) for e in m["history"]]
+            M._NEXT[0] = vals
+            obs["param"].append(0)
+            g = getattr(M, m["fn"])(0)
+            obs["yield"].append(next(g))
+            tick = getattr(M, m["fn"] + "_tick")
+            for i in range(1100):
+                tick(i)
             try:
                 while True:
                     obs["yield"].append(next(g))
@@ -229,7 +271,7 @@ def judge_stub(text: str, M, metas, observed, flag: List[str]) -> List[Tuple[str
                     out.append(("unresolved", sig_of("annotation-unresolved"), m["fn"], f"{m['fn']} return: {R.msg}"))
                 continue
             k = O.classify(R)
-            is_gen = m["kind"] in ("generator", "generator_ret", "generator_alt", "generator_seq")
+            is_gen = m["kind"] in ("generator", "generator_ret", "generator_alt", "generator_seq", "suspended_over_calls")
             if is_gen and k[0] == "generic" and k[1] in (collections.abc.Iterator, collections.abc.Generator, collections.abc.Iterable) and k[2]:
                 Y = k[2][0]
                 for v in obs["yield"]:
@@ -471,6 +513,75 @@ def persistent_logger_stage(ctx: Ctx) -> Result:
     return res
 
 
+def interleaved_runs_stage(ctx: Ctx) -> Result:
+    """run -> stub -> run -> stub in ONE long-lived process: the second run happens in ANOTHER process (its own tracing
+    session and store connection, as a second `monkeytype run` would), this process asks for the stub before and after it.
+    Each stub admits every value observed so far - the second one also the values of the second run."""
+    import mcfg
+    import monkeytype
+    from monkeytype import cli
+
+    res = Result()
+    srcdir = ctx.tmp / "c01_interleaved"
+    srcdir.mkdir(exist_ok=True)
+    if str(srcdir) not in sys.path:
+        sys.path.insert(0, str(srcdir))
+    modname = f"c01inter_{ctx.seed}"
+    hs = [("0", "'a'"), ("[0]", "None"), ("{'a': 0}", "{'b': 'x'}"), ("Base()", "Other()"), ("(0,)", "(0, 'a')"), ("None", "1.5"), ("[]", "['a']"), ("{0}", "set()"),
+          ("0", "[0]"), ("'a'", "b'x'"), ("Derived()", "None"), ("{1: 0}", "{'a': 0}")]
+    src, metas = gen_module(modname, hs, 77000)
+    (srcdir / f"{modname}.py").write_text(src)
+    importlib.invalidate_caches()
+    M = importlib.import_module(modname)
+    files = {M.__file__}
+    first = [dict(m, history=m["history"][:1]) for m in metas]
+    second = [dict(m, history=m["history"][1:]) for m in metas]
+    for k in (0, 3):
+        (srcdir / f"k{k}").mkdir(exist_ok=True)
+        db = str(srcdir / f"k{k}" / "traces.sqlite3")
+        if os.path.exists(db):
+            os.unlink(db)
+        mcfg.reset(db=db, k=k, filter=lambda code: code.co_filename in files)
+        observed: Dict[str, Dict[str, List[Any]]] = {}
+        with monkeytype.trace(mcfg.CONFIG):
+            drive(M, first, observed)
+        for step in (1, 2):
+            if step == 2:
+                pid = os.fork()
+                if pid == 0:
+                    try:
+                        mcfg.STATE["db"] = str(srcdir / f"k{k}" / "." / "traces.sqlite3")   # this process's own connection to the file
+                        with monkeytype.trace(mcfg.CONFIG):
+                            drive(M, second, {})
+                        os._exit(0)
+                    except BaseException:  # noqa: BLE001
+                        os._exit(3)
+                _, status = os.waitpid(pid, 0)
+                if status != 0:
+                    raise HarnessError(f"second run (other process) failed with status {status}")
+                drive(M, second, observed)   # (untraced, in this process: what the other process's run passed and returned)
+            out, err = io.StringIO(), io.StringIO()
+            res.states += 1
+            res.evaluations += 1
+            res.validated += 1
+            case = {"module": -8, "k": k, "rewriter": "DEFAULT", "flag": 0, "tier": ctx.tier}
+            try:
+                rc = cli.main(["-c", "mcfg:CONFIG", "stub", modname], out, err)
+            except Exception as e:  # noqa: BLE001
+                res.violate(Violation(ID, "exception", f"interleaved-runs:{type(e).__name__}", case, f"stub after run {step} raised {e!r}"))
+                continue
+            if rc != 0:
+                res.violate(Violation(ID, "exception", "interleaved-runs:rc", case, f"stub after run {step}: rc={rc} {err.getvalue()[-200:]}"))
+                continue
+            for kind, sig, fn, msg in judge_stub(out.getvalue(), M, metas, observed, [])[:2]:
+                res.violate(Violation(ID, kind, "stub-asked-again-after-a-second-run:" + sig, case, f"run, stub, run (other process), stub in one process; stub after run {step}: " + msg))
+            res.transitions += len(metas)
+            res.nontrivial_n += 1
+    res.oblige("interleaved-runs", True)
+    del sys.modules[modname]
+    return res
+
+
 def modules(tier: str) -> List[List[Tuple[str, ...]]]:
     hs = histories(tier)
     n = 48
@@ -492,6 +603,8 @@ def run(ctx: Ctx) -> Result:
 
     res = run_shards(ctx, shard, list(range(nshards)))
     res.merge(persistent_logger_stage(ctx))
+    res.merge(interleaved_runs_stage(ctx))
+    res.obligations.setdefault("interleaved-runs", False)
     res.obligations.setdefault("persistent-logger-with-failing-store", False)
     for rname, _ in rewriters():
         res.obligations.setdefault(f"rewriter:{rname}", False)
@@ -508,6 +621,8 @@ def replay(case: Dict[str, Any], ctx: Ctx) -> List[Violation]:
     ctx.tier = case.get("tier", "quick")
     if case.get("module") == -9:
         return persistent_logger_stage(ctx).violations
+    if case.get("module") == -8:
+        return interleaved_runs_stage(ctx).violations
     ms = modules(ctx.tier)
     srcdir = ctx.tmp / "c01_replay"
     srcdir.mkdir(exist_ok=True)
